@@ -199,7 +199,7 @@ def run(F, R):
             if not t_.get("argt") or t_.get("name") in ("push", "iter", "into_iter", "is_empty", "len", "new", "with_capacity", "deref", "as_slice", "first", "last", "get"):
                 continue
             ty0 = hb_.crate.types[t_["argt"][0]]
-            if ty0.get("k") == "ref" and ty0.get("m") and "Vec<" in ty0["s"] and "Installer>::Error" in ty0["s"]:
+            if ty0.get("k") == "ref" and ty0.get("m") and "Vec<" in ty0["s"] and "Installer>::Error" in ty0["s"] and "AppInstallResult" not in ty0["s"]:
                 shrink.append((t_.get("name"), lib.loc(hb_, bi_)))
         R.check("C04-R2", "installer-errors-not-filtered", not shrink, "the error list is only appended to before it is announced", "the collected installer errors are modified before being announced (%s): fewer InstallerError events than failed apps" % shrink)
         loops = [L_ for L_ in comps if any(x in L_ for x in ierr)]
